@@ -89,24 +89,35 @@ def _names(e):
 def extract_validate(fn):
     body = [s for s in fn.body if not (isinstance(s, ast.Expr) and isinstance(s.value, ast.Constant))]
     out = {}
-    canon0 = Canon({}, {})
+    env = {}
+    guards, loop = [], None
+    for s in body:
+        if loop is not None:
+            raise Untranslatable("validate: statements after the sub-image loop")
+        if isinstance(s, ast.Assign) and len(s.targets) == 1 and isinstance(s.targets[0], ast.Name):
+            env[s.targets[0].id] = Canon({}, env).visit(copy.deepcopy(s.value))
+        elif isinstance(s, ast.If) and not s.orelse and _raises_spsdk(s.body):
+            guards.append(s)
+        elif isinstance(s, ast.For):
+            loop = s
+        else:
+            raise Untranslatable(f"validate: unexpected statement {ast.unparse(s)[:60]}")
     # --- three guards
-    if len(body) != 4 or not all(isinstance(s, ast.If) and not s.orelse and _raises_spsdk(s.body) for s in body[:3]):
+    if len(guards) != 3 or loop is None:
         raise Untranslatable("validate: expected three `if ...: raise SPSDK...` guards followed by one loop")
-    out["v_offset_negative"] = (["self_offset"], canon0.visit(copy.deepcopy(body[0].test)))
-    out["v_length_negative"] = (["len_self"], canon0.visit(copy.deepcopy(body[1].test)))
-    t3 = body[2].test
+    out["v_offset_negative"] = (["self_offset"], Canon({}, env).visit(copy.deepcopy(guards[0].test)))
+    out["v_length_negative"] = (["len_self"], Canon({}, env).visit(copy.deepcopy(guards[1].test)))
+    t3 = guards[2].test
     if not (isinstance(t3, ast.BoolOp) and isinstance(t3.op, ast.And) and len(t3.values) == 2
             and ast.unparse(t3.values[0]) == "self.binary"):
         raise Untranslatable("validate: third guard is not `self.binary and <comparison>`")
-    out["v_binary_too_long"] = (["len_binary", "len_self"], canon0.visit(copy.deepcopy(t3.values[1])))
+    out["v_binary_too_long"] = (["len_binary", "len_self"], Canon({}, env).visit(copy.deepcopy(t3.values[1])))
     # --- loop over the sub-images
-    loop = body[3]
-    if not (isinstance(loop, ast.For) and isinstance(loop.target, ast.Name) and _is_sub_images(loop.iter) and not loop.orelse):
+    if not (isinstance(loop.target, ast.Name) and _is_sub_images(loop.iter) and not loop.orelse):
         raise Untranslatable("validate: expected `for <image> in self.sub_images`")
     img = loop.target.id
     roles = {img: "image"}
-    env = {}
+    env = dict(env)
     stmts = list(loop.body)
     first = stmts.pop(0)
     if not (isinstance(first, ast.Expr) and ast.unparse(first.value) == f"{img}.validate()"):
